@@ -234,33 +234,39 @@ End Sem.
 (* scalar fields and the input are passed as expressions, so that formulas compose by substitution
    (inverse_and_log_det: the log-det formula is applied to the term of the inverse). *)
 
-(* ---- tanh.py ---- *)
-Definition tanh_log_grad_t (x : expr) : expr :=
-  Mul (Const (-2)) (Sub (Add x (Softplus (Mul (Const (-2)) x))) (Log (Const 2))).
+(* ---- tanh.py ----
+   A Python function call / local variable SHARES its value: the cotangents of all uses are summed before they
+   are propagated further (this matters when the next partial derivative is infinite: (2 - 4) * inf = -inf but
+   2 * inf - 4 * inf = NaN).  [d] is the number of scalars in scope = the slot the next Let1 binds. *)
+Definition tanh_log_grad_t (d : nat) (x : expr) : expr :=          (* _tanh_log_grad(x) *)
+  Let1 x (Mul (Const (-2)) (Sub (Add (Var d) (Softplus (Mul (Const (-2)) (Var d)))) (Log (Const 2)))).
 Definition tanh_fwd_t (x : expr) := Tanh x.
 Definition tanh_inv_t (y : expr) := Atanh y.
-Definition tanh_ld_fwd_t (x : expr) := tanh_log_grad_t x.
-Definition tanh_ld_inv_t (y : expr) := Neg (tanh_log_grad_t (Atanh y)).
+Definition tanh_ld_fwd_t (d : nat) (x : expr) := tanh_log_grad_t d x.
+(* x = arctanh(y); -sum(_tanh_log_grad(x)) *)
+Definition tanh_ld_inv_of_t (d : nat) (x : expr) := Neg (tanh_log_grad_t d x).
+Definition tanh_ld_inv_t (d : nat) (y : expr) := Let1 (Atanh y) (tanh_ld_inv_of_t (S d) (Var d)).
 
 Definition leaky_fwd_t (m g ic x : expr) : expr :=
   Where (CGe (Abs x) m) (Add (Mul g x) (Mul (Sign x) ic)) (Tanh x).
-Definition leaky_ld_fwd_t (m g x : expr) : expr :=
-  Where (CGe (Abs x) m) (Log g) (tanh_log_grad_t x).
+Definition leaky_ld_fwd_t (d : nat) (m g x : expr) : expr :=
+  Where (CGe (Abs x) m) (Log g) (tanh_log_grad_t d x).
 Definition leaky_inv_t (m g ic y : expr) : expr :=
   let lin := CGe (Abs y) (Tanh m) in
   let x_linear := Div (Sub y (Mul (Sign y) ic)) g in
   let y_robust := Where lin (Const 0) y in
   Where lin x_linear (Atanh y_robust).
-Definition leaky_ld_inv_t (m g ic y : expr) : expr :=
-  let x := leaky_inv_t m g ic y in
-  Neg (Where (CGe (Abs y) (Tanh m)) (Log g) (tanh_log_grad_t x)).
+(* inverse_and_log_det: x = self.inverse(y) is bound once; the log-det reads y and x *)
+Definition leaky_ld_inv_of_t (d : nat) (m g y x : expr) : expr :=
+  Neg (Where (CGe (Abs y) (Tanh m)) (Log g) (tanh_log_grad_t d x)).
+Definition leaky_ld_inv_t (d : nat) (m g ic y : expr) : expr :=
+  Let1 (leaky_inv_t m g ic y) (leaky_ld_inv_of_t (S d) m g y (Var d)).
 (* before fix 81a9f7e: arctanh(y) on the unselected branch *)
 Definition leaky_inv_old_t (m g ic y : expr) : expr :=
   let lin := CGe (Abs y) (Tanh m) in
   Where lin (Div (Sub y (Mul (Sign y) ic)) g) (Atanh y).
-Definition leaky_ld_inv_old_t (m g ic y : expr) : expr :=
-  let x := leaky_inv_old_t m g ic y in
-  Neg (Where (CGe (Abs y) (Tanh m)) (Log g) (tanh_log_grad_t x)).
+Definition leaky_ld_inv_old_t (d : nat) (m g ic y : expr) : expr :=
+  Let1 (leaky_inv_old_t m g ic y) (leaky_ld_inv_of_t (S d) m g y (Var d)).
 
 (* ---- rational_quadratic_spline.py: parameter arrays 0 = x_pos, 1 = y_pos, 2 = derivatives ---- *)
 Definition XP := 0%nat. Definition YP := 1%nat. Definition DV := 2%nat.
@@ -317,8 +323,9 @@ Section RQS.
       Where inb (Div num (Sq den0)) (Const 1)).
   (* transform_and_log_det: log(derivative(x));  inverse_and_log_det: x = inverse(y) (bound once), -log(derivative(x)) *)
   Definition rqs_ld_fwd_gt (d : nat) (lo hi x : expr) := Log (rqs_deriv_gt d lo hi x).
+  Definition rqs_ld_inv_of_gt (d : nat) (lo hi x : expr) := Neg (Log (rqs_deriv_gt d lo hi x)).
   Definition rqs_ld_inv_gt (d : nat) (lo hi y : expr) :=
-    Let1 (rqs_inv_gt d lo hi y) (Neg (Log (rqs_deriv_gt (S d) lo hi (Var d)))).
+    Let1 (rqs_inv_gt d lo hi y) (rqs_ld_inv_of_gt (S d) lo hi (Var d)).
 End RQS.
 Definition rqs_fwd_t := rqs_fwd_gt bin_t.
 Definition rqs_inv_t := rqs_inv_gt bin_t.
@@ -335,11 +342,11 @@ Definition rqs_ld_inv_old_t := rqs_ld_inv_gt bin_old_t.
 Definition softplus_fwd_t (x : expr) := Softplus x.
 Definition softplus_ld_fwd_t (x : expr) := Neg (Softplus (Neg x)).
 Definition softplus_inv_t (y : expr) := Add (Log (Neg (Expm1 (Neg y)))) y.
-Definition softplus_ld_inv_t (y : expr) := Softplus (Neg (softplus_inv_t y)).
+Definition softplus_ld_inv_t (d : nat) (y : expr) := Let1 (softplus_inv_t y) (Softplus (Neg (Var d))).   (* x = inverse(y); softplus(-x) *)
 Definition exp_fwd_t (x : expr) := Exp x.
 Definition exp_inv_t (y : expr) := Log y.
 Definition exp_ld_fwd_t (x : expr) := x.
-Definition exp_ld_inv_t (y : expr) := Neg (Log y).
+Definition exp_ld_inv_t (d : nat) (y : expr) := Let1 (Log y) (Neg (Var d)).                               (* x = log(y); -x *)
 Definition affine_fwd_t (loc scale x : expr) := Add (Mul x scale) loc.
 Definition affine_inv_t (loc scale y : expr) := Div (Sub y loc) scale.
 Definition affine_ld_t (scale : expr) := Log (Abs scale).
@@ -376,27 +383,30 @@ Definition inv_t (l : leafk) (y : expr) : expr :=
 Definition ld_fwd_t (l : leafk) (x : expr) : expr :=
   match l with
   | LAffine => affine_ld_t vSCALE | LExp => exp_ld_fwd_t x | LSoftplus => softplus_ld_fwd_t x
-  | LTanh => tanh_ld_fwd_t x | LLeaky | LLeakyOld => leaky_ld_fwd_t vM vG x
+  | LTanh => tanh_ld_fwd_t nV x | LLeaky | LLeakyOld => leaky_ld_fwd_t nV vM vG x
   | LRqs => rqs_ld_fwd_t nV vLO vHI x | LRqsOld => rqs_ld_fwd_old_t nV vLO vHI x
   end.
-Definition ld_inv_t (l : leafk) (y : expr) : expr :=
+(* the log-det of inverse_and_log_det as a function of the input y AND the already computed x = inverse(y) *)
+Definition ld_inv_of_t (l : leafk) (d : nat) (y x : expr) : expr :=
   match l with
-  | LAffine => Neg (affine_ld_t vSCALE) | LExp => exp_ld_inv_t y | LSoftplus => softplus_ld_inv_t y
-  | LTanh => tanh_ld_inv_t y | LLeaky => leaky_ld_inv_t vM vG vIC y | LLeakyOld => leaky_ld_inv_old_t vM vG vIC y
-  | LRqs => rqs_ld_inv_t nV vLO vHI y | LRqsOld => rqs_ld_inv_old_t nV vLO vHI y
+  | LAffine => Neg (affine_ld_t vSCALE) | LExp => Neg x | LSoftplus => Softplus (Neg x)
+  | LTanh => tanh_ld_inv_of_t d x | LLeaky | LLeakyOld => leaky_ld_inv_of_t d vM vG y x
+  | LRqs => rqs_ld_inv_of_gt bin_t d vLO vHI x | LRqsOld => rqs_ld_inv_of_gt bin_old_t d vLO vHI x
   end.
+Definition ld_inv_t (l : leafk) (y : expr) : expr := Let1 (inv_t l y) (ld_inv_of_t l (S nV) y (Var nV)).
 
 (* base_dist._log_prob(z): StandardNormal, or Normal(loc, scale) = Transformed(StandardNormal, Affine) *)
 Definition base_lp_t (normal : bool) (z : expr) : expr :=
   if normal then Add (norm_logpdf_t (affine_inv_t vBLOC vBSCALE z)) (Neg (affine_ld_t vBSCALE))
   else norm_logpdf_t z.
 
-(* AbstractTransformed._log_prob:  z, ld = bijection.inverse_and_log_det(x);  base._log_prob(z) + ld.
-   [inverted]: the bijection is Invert(leaf), whose inverse_and_log_det is leaf.transform_and_log_det. *)
+(* AbstractTransformed._log_prob:  z, ld = bijection.inverse_and_log_det(x);  base._log_prob(z) + ld
+   (z is bound once: it feeds the base density and, inside inverse_and_log_det, the log-det).
+   [inverted]: the bijection is Invert(leaf), whose inverse_and_log_det is leaf.transform_and_log_det
+   (there the point and the log-det are computed independently from x). *)
 Definition lp_t (l : leafk) (inverted normal : bool) : expr :=
-  let z := if inverted then fwd_t l vX else inv_t l vX in
-  let ld := if inverted then ld_fwd_t l vX else ld_inv_t l vX in
-  Add (base_lp_t normal z) ld.
+  if inverted then Add (base_lp_t normal (fwd_t l vX)) (ld_fwd_t l vX)
+  else Let1 (inv_t l vX) (Add (base_lp_t normal (Var nV)) (ld_inv_of_t l (S nV) vX (Var nV))).
 
 (* the where(isnan(lps), -inf, lps) post-processing of AbstractDistribution.log_prob on value classes *)
 Inductive vclass := Fin | PInf | NInf | NaN.
